@@ -148,4 +148,25 @@ PLANS = {
         'design_ref': 'DESIGN.md 5.7',
         'level_note': 'trusted: /verif/ref/fa.py incl. ref_union/ref_concat/ref_star (cross-checked against bounded enumeration in selftest)',
     },
+    'C19': {
+        'quick': {'rounds': 3, 'wall_cap_s': 200, 'replicas': 4, 'logging_replica': True},
+        'thorough': {'rounds': 6, 'wall_cap_s': 2400, 'replicas': 4, 'logging_replica': True},
+        'selftest': {'rounds': 1, 'wall_cap_s': 200, 'replicas': 2, 'logging_replica': True},
+        'rule': ('a bundle = one session spec (9-14 objects of all six kinds built from seeded specs over a 1-2 letter alphabet, then 36-60 calls drawn uniformly from a registry of ~90 pure operations: '
+                 'acceptance tests, enumerators, minimisers, products, complement/reverse/prefix-free, conversions (nfa_to_dfa, dfa_to_regexp, regexp_to_nfa, cfg_to_chomsky and its phases, pda_to_cfg, PDA normal forms), '
+                 'printers, generate_language, accept/reject checkers and ~14 text-level check_* functions with correct, perturbed and ill-formed answers; results join the pool and become operands) executed by 5 replicas: '
+                 '4 fresh interpreters with different PYTHONHASHSEED plus one with GambaTools.enable_logging=True; inside each replica the session runs in a pristine fork and one call in eight is re-executed alone '
+                 '(arguments rebuilt from their pre-call snapshots) in another pristine fork. One evaluation = one operation call. Oracles: every pool object is re-snapshotted after every step (argument integrity); '
+                 'per-step outcome digests (exact language for DFA/NFA/regexp results, bounded language for CFG/PDA results, value for bools/sets, OK/not-OK for checkers, exception type) must agree across replicas, '
+                 'between session and solo execution, and between logging on/off. distinct non-trivial = distinct (session, step) whose operand was produced by an earlier step or used before.'),
+        'schedule_measure': 'distinct (session, hash seed, logging) executions',
+        'assumptions': COMMON_ASSUMPTIONS + ['witness lists (simulation runs, derivations) are not compared across replicas: C15 allows any valid witness',
+                                             'CFG and PDA results are compared on words of bounded length (<= 4 resp. <= 3)',
+                                             'a consistent exception (e.g. dfa_make_total: RecursionError) is agreement, not a violation of this property'],
+        'expected_probes': ['nontrivial_steps', 'solo_reexecutions', 'pda_call_with_truncated_closure'],
+        'technique': 'deterministic simulation of replicas: one seeded operation history executed by several fresh interpreters (different PYTHONHASHSEED, logging on/off) and re-executed step-wise in pristine forks; differential oracle on language-level outcome digests plus snapshots after every step; ddmin over the step list inside the same two interpreters; replay files confirmed in fresh interpreters',
+        'level_text': 'seeded sampling of call histories x hash seeds x logging; argument integrity is checked after every step in every replica, and replica / solo / logging agreement is checked on every step outcome; evidence, not proof',
+        'design_ref': 'DESIGN.md 5.8',
+        'level_note': 'trusted: outcome digests (reference canonical forms from /verif/ref), snapshots; only agreement is judged here, not correctness of the agreed value (that is the business of the other properties)',
+    },
 }
